@@ -28,6 +28,7 @@ class Directory(object):
         self.accounts = {}      # jid -> dict(identity, registration, type, skey=(id,value,sig), prekeys=OrderedDict id->value)
         self.confirmed = {}     # jid -> list of prekey ids whose upload the server confirmed (in order)
         self.handed_out = {}    # jid -> list of prekey ids handed to peers
+        self.handed_out_values = {}   # jid -> {id: value} of the keys handed to peers
         self.groups = {}        # gjid -> dict(subject, creator, participants=[jids])
 
     def upload(self, jid, node):
@@ -38,10 +39,14 @@ class Directory(object):
         sk = node.getChild("skey")
         acc["skey"] = (sk.getChild("id").data, sk.getChild("value").data, sk.getChild("signature").data)
         ids = []
+        gone = self.handed_out_values.setdefault(jid, {})
         for k in node.getChild("list").getAllChildren():
             kid = k.getChild("id").data
-            acc["prekeys"][kid] = k.getChild("value").data
             ids.append(kid)
+            if gone.get(kid) == k.getChild("value").data:
+                continue        # this very key was handed to a peer already (its first upload got through although the
+                                # client never saw the confirmation): a one-time key is handed out once
+            acc["prekeys"][kid] = k.getChild("value").data
         self.confirmed.setdefault(jid, []).extend(ids)
         return ids
 
@@ -59,6 +64,7 @@ class Directory(object):
         if acc["prekeys"]:
             kid, kval = acc["prekeys"].popitem(last=False)      # each one-time prekey is handed out once
             self.handed_out.setdefault(jid, []).append(kid)
+            self.handed_out_values.setdefault(jid, {})[kid] = kval
             user.addChild(ProtocolTreeNode("key", children=[ProtocolTreeNode("id", data=kid), ProtocolTreeNode("value", data=kval)]))
         return user
 
